@@ -115,6 +115,7 @@ func oracle(s spec) func(c *gridx.Case, r *vf.Rec) {
 		}
 		state := c.Init
 		moved := false
+		chainOut := make([][]float64, len(desc.Outputs))
 		chainScale := 0.0 // the largest mass handled so far in this chain: round-off residue of an earlier step is relative to it
 		for t := 0; t < c.T; t++ {
 			seg := c.RunSeg(t, t+1, state)
@@ -186,6 +187,33 @@ func oracle(s spec) func(c *gridx.Case, r *vf.Rec) {
 				return
 			}
 			state = seg.States
+			for k := range chainOut {
+				chainOut[k] = append(chainOut[k], seg.Out[k][0])
+			}
+		}
+		// the per-step observation above is only meaningful if a chain of single-step calls is the same computation as
+		// ONE call over the whole word: outputs and final stores must agree
+		whole := c.RunSeg(0, c.T, c.Init)
+		wtol := 1e-9*chainScale + 1e-12
+		for k := range whole.Out {
+			for t := 0; t < c.T; t++ {
+				if a, b := whole.Out[k][t], chainOut[k][t]; !(math.Abs(a-b) <= wtol+1e-9*math.Abs(b)) && !(math.IsNaN(a) && math.IsNaN(b)) {
+					r.Failf(fmt.Sprintf("C12/%s/one-call-differs-from-the-chain-of-single-steps/output%s", s.model, br), map[string]interface{}{"output": desc.Outputs[k], "t": t, "one_call": a, "chain": b, "params": p},
+						"%s: output %s at t=%d is %g when the word is run in one call and %g in the chain of single-step calls", s.model, desc.Outputs[k], t, a, b)
+					return
+				}
+			}
+		}
+		for i := range whole.States {
+			if a, b := whole.States[i], state[i]; !(math.Abs(a-b) <= wtol+1e-9*math.Abs(b)) {
+				r.Failf(fmt.Sprintf("C12/%s/one-call-differs-from-the-chain-of-single-steps/state%s", s.model, br), map[string]interface{}{"state": i, "one_call": a, "chain": b, "params": p},
+					"%s: final stored mass %d is %g when the word is run in one call and %g after the chain of single-step calls", s.model, i, a, b)
+				return
+			}
+			if name := desc.States[i]; whole.States[i] < -wtol && !(s.model == "InstreamParticulateNutrient" && name == "channelStoredMass") {
+				r.Failf(fmt.Sprintf("C12/%s/negative-stored-mass/%s%s", s.model, name, br), map[string]interface{}{"one_call_final_states": whole.States, "params": p}, "%s: stored mass %s = %g after one call over the whole word", s.model, name, whole.States[i])
+				return
+			}
 		}
 		if moved {
 			r.MarkNontrivial()
@@ -217,7 +245,7 @@ func Spec() *vf.Check {
 	return &vf.Check{
 		ID: "C12", Level: "exploration", BlockSize: 512,
 		Rule: "8 constituent models x parameter vectors forcing each branch (bank-full 0/>0, deposition/remobilisation/neither, half-life 0/finite, trapping on/off, decay disabled) x initial stored masses {0, >0} x every word of length T over the model's alphabet (zero-flow, near-empty below the minimum volume, above bank-full), executed as a chain of single-step calls so every step's stores are observed; " +
-			"per step: stored_before + mass_in = mass_out + reported sinks + stored_after (1e-9 relative), except on steps whose working volume is below the minimum-volume threshold (loss up to the working mass allowed, never a gain); loads and stored masses >= 0; remobilisation <= channel store. distinct_nontrivial = chains that moved mass.",
+			"per step: stored_before + mass_in = mass_out + reported sinks + stored_after (1e-9 relative), except on steps whose working volume is below the minimum-volume threshold (loss up to the working mass allowed, never a gain); loads and stored masses >= 0; remobilisation <= channel store; the same word run in ONE call gives the same outputs and final stores as the chain. distinct_nontrivial = chains that moved mass.",
 		Assumptions: []string{"stores are read from the state vector (not from reported rates)", "StorageTrapAll has no timestep parameter: its budget is taken in its own per-step units", "InstreamParticulateNutrient's bed store may be drawn negative by a negative channel-deposition signal (an input); only the in-stream store is required to be >= 0", "lattice values only"},
 		Build:       func(tier string) vf.Enumeration { return gridx.NewEnum("C12", spaces(tier)) },
 	}
